@@ -141,7 +141,7 @@ Fixpoint drain_fuel (n : nat) (st : mstate) : mstate :=
   | O => st
   | S k => match queue st with [] => st | _ => drain_fuel k (fst (next st)) end
   end.
-Definition drain (st : mstate) : mstate := drain_fuel (length (queue st)) st.
+Definition drain (st : mstate) : mstate := drain_fuel (List.length (queue st)) st.
 
 Inductive op :=
 | Post (src dest id : Z) (ty : option Z)
@@ -202,15 +202,20 @@ Definition outcome_eqb (a b : outcome) : bool :=
 Definition qent_eqb (a b : qent) : bool :=
   (q_type a =? q_type b) && (q_cnt a =? q_cnt b) && cmsg_eqb (q_msg a) (q_msg b).
 
+(* the handlers see (sender, destination computation, message), not the type *)
+Definition strip (m : cmsg) : Z * Z * Z := (m_src m, m_dest m, m_id m).
+Definition zzz_eqb (a b : Z * Z * Z) : bool :=
+  (fst (fst a) =? fst (fst b)) && (snd (fst a) =? snd (fst b)) && (snd a =? snd b).
+
 Record seq_case := mkSeq {
   s_me : Z; s_disc : list (Z * Z);      (* local agent, initial computation table *)
   s_ops : list op;
   s_outcomes : list outcome;            (* observed, one per op *)
   s_queue : list qent;                  (* observed final _queue content, sorted *)
   s_failed : list cmsg;                 (* observed final _failed *)
-  s_handled : list cmsg;                (* observed handler invocations *)
+  s_handled : list (Z * Z * Z);         (* observed handler invocations *)
   s_outbox : list (Z * cmsg);           (* observed send_msg calls *)
-  s_remote : list (Z * (list (Z * Z) * list cmsg))
+  s_remote : list (Z * (list (Z * Z) * list (Z * Z * Z)))
      (* per remote agent: its own computation table, the messages its loop handled, in order *)
 }.
 
@@ -222,14 +227,35 @@ Definition check_seq (c : seq_case) : bool :=
   list_eqb outcome_eqb outs (s_outcomes c)
   && list_eqb qent_eqb (queue st) (s_queue c)
   && list_eqb cmsg_eqb (failed st) (s_failed c)
-  && list_eqb cmsg_eqb (handled st) (s_handled c)
+  && list_eqb zzz_eqb (map strip (handled st)) (s_handled c)
   && list_eqb (pair_eqb Z.eqb cmsg_eqb) (outbox st) (s_outbox c)
-  && forallb (fun p => list_eqb cmsg_eqb (remote_handled (outbox st) (fst p) (fst (snd p))) (snd (snd p)))
+  && forallb (fun p => list_eqb zzz_eqb (map strip (remote_handled (outbox st) (fst p) (fst (snd p)))) (snd (snd p)))
              (s_remote c).
 
-Record thr_case := mkThr { t_events : list qevent; t_handled : list cmsg }.
-Definition check_thr (c : thr_case) : bool := list_eqb cmsg_eqb (qrun [] (t_events c)) (t_handled c).
+Record thr_case := mkThr { t_events : list qevent; t_handled : list (Z * Z * Z) }.
+Definition check_thr (c : thr_case) : bool :=
+  list_eqb zzz_eqb (map strip (qrun [] (t_events c))) (t_handled c).
 
 Inductive case := CSeq (c : seq_case) | CThr (c : thr_case).
 Definition check_case (c : case) : bool :=
   match c with CSeq s => check_seq s | CThr t => check_thr t end.
+
+(* ---------- msg_queue_count += 1 ; put((type, msg_queue_count, ...)) is not atomic ----------
+   Micro-steps of two threads A (true) / B (false) executing post_msg's local branch:
+   load the counter, store the incremented value, read the counter again for the queue tuple. *)
+Inductive micro := MLoad (t : bool) | MStore (t : bool) | MRead (t : bool).
+Record race := mkRace { r_cnt : Z; r_tmpA : Z; r_tmpB : Z; r_drawn : list (bool * Z) }.
+Definition micro_step (s : race) (m : micro) : race :=
+  match m with
+  | MLoad true => mkRace (r_cnt s) (r_cnt s) (r_tmpB s) (r_drawn s)
+  | MLoad false => mkRace (r_cnt s) (r_tmpA s) (r_cnt s) (r_drawn s)
+  | MStore true => mkRace (r_tmpA s + 1) (r_tmpA s) (r_tmpB s) (r_drawn s)
+  | MStore false => mkRace (r_tmpB s + 1) (r_tmpA s) (r_tmpB s) (r_drawn s)
+  | MRead t => mkRace (r_cnt s) (r_tmpA s) (r_tmpB s) (r_drawn s ++ [(t, r_cnt s)])
+  end.
+Definition micro_run (sched : list micro) : race := fold_left micro_step sched (mkRace 0 0 0 []).
+Definition micro_of (m : micro) : bool := match m with MLoad t | MStore t | MRead t => t end.
+Definition micro_kind (m : micro) : nat := match m with MLoad _ => 0 | MStore _ => 1 | MRead _ => 2 end.
+(* each thread executes load, store, read in this order, once *)
+Definition program_order (t : bool) (sched : list micro) : bool :=
+  list_eqb Nat.eqb (map micro_kind (filter (fun m => Bool.eqb (micro_of m) t) sched)) [0; 1; 2]%nat.
